@@ -6,7 +6,14 @@
 (* pending_intents (I), of the state RwLock (Sw/Sr) and of the WAL mutex   *)
 (* (W), and every rename/unlink/open of a blob (F).  The WAL append, the   *)
 (* in-memory apply and the snapshot happen entirely under the state and    *)
-(* WAL locks and are one step each (their crash behaviour is CasSteps').   *)
+(* WAL locks.  The durable side is part of the state: dlog is the log as a *)
+(* process kill would leave it, dsnap the last snapshot.  The append of a  *)
+(* record (W:apply) and the in-memory apply (M:apply) are separate steps - *)
+(* no other thread can get between them (both locks are held), but a kill  *)
+(* can - so that C03x_KillSafe speaks about the instant in between.  The   *)
+(* code has no yield point there: a recorded step from W:apply is the two  *)
+(* model steps together (StepObs).  The inner steps of a checkpoint are    *)
+(* CasSteps' subject; here a checkpoint is one step.                       *)
 (*                                                                         *)
 (* The whole state is one record (as in CasSteps) so that StepT can be     *)
 (* used both as TLC's next-state relation and by TraceConc, which replays  *)
@@ -28,6 +35,7 @@ NoTh == [pc |-> "done", opi |-> 1, k |-> 0, c |-> Absent, keys |-> <<>>, unref |
 ConcInit(n, idx, cas, nv, orph, progs) ==
     [n |-> n, idx |-> idx, intents |-> [k \in Keys |-> Absent], icount |-> [c \in AllContents |-> 0],
      cas |-> cas, nv |-> nv, lp |-> nv - 1,
+     dlog |-> <<>>, dsnap |-> [ver |-> nv - 1, idx |-> idx],
      lkI |-> 0, lkS |-> 0, lkW |-> 0, rd |-> {}, ug |-> {}, wq |-> {}, orph |-> orph, prog |-> progs,
      th |-> [t \in DOMAIN progs |-> [NoTh EXCEPT !.pc = IF progs[t] = <<>> THEN "done" ELSE "call"]],
      edges |-> {}]
@@ -41,6 +49,8 @@ NeedsI(p) == p \in {"I:register", "I:put", "I:rm", "I:orphan", "I:intent_drop"}
 NeedsSw(p) == p \in {"Sw:apply", "Sw:roll", "Sw:ckpt"}
 NeedsSr(p) == p = "Sr:read"
 NeedsW(p) == p \in {"W:apply", "W:roll", "W:ckpt"}
+\* the log record of the write operation thread t is committing
+LopOf(s, t) == IF s.prog[t][s.th[t].opi].op \in {"put", "txfinish"} THEN PutOp(s.th[t].k, s.th[t].c) ELSE RmOp(s.th[t].keys)
 
 Enabled(s, t) ==
     LET p == s.th[t].pc IN
@@ -110,9 +120,11 @@ StepT(s, t) ==
       [] p = "F:rename" -> At([s1 EXCEPT !.cas = @ \cup {me.c}], t, "I:put")
       [] p \in {"I:put", "I:rm"} -> At([s1 EXCEPT !.lkI = t], t, "Sw:apply")
       [] p = "Sw:apply" -> At([s1 EXCEPT !.lkS = t, !.wq = @ \ {t}], t, "W:apply")
-      [] p = "W:apply" ->
+      [] p = "W:apply" ->         \* WalManager::append_op: the record is durable when this step ends
+            At([s1 EXCEPT !.dlog = Append(@, Rec(s.nv, LopOf(s, t))), !.lkW = t], t, "M:apply")
+      [] p = "M:apply" ->         \* IndexState::apply_logical_op, the intent bookkeeping and the reclamation filter
             LET isPut  == CurOp(s, t).op \in {"put", "txfinish"}
-                lop    == IF isPut THEN PutOp(me.k, me.c) ELSE RmOp(me.keys)
+                lop    == LopOf(s, t)
                 x      == ApplyOp(IxOf(s.idx), lop)
                 preSeg == IF s.nv = 1 THEN 0 ELSE SegOf(s.nv - 1, s.n)
                 rolled == preSeg # SegOf(s.nv, s.n)
@@ -121,7 +133,7 @@ StepT(s, t) ==
                 ints   == IF isPut /\ (~IntentsPerHash \/ s.intents[me.k] = me.c)
                           THEN [s.intents EXCEPT ![me.k] = Absent] ELSE s.intents
                 icnt   == IF isPut THEN [s.icount EXCEPT ![me.c] = @ - 1] ELSE s.icount
-                s2     == [s1 EXCEPT !.idx = x.idx, !.nv = @ + 1, !.intents = ints, !.icount = icnt, !.lkS = 0]
+                s2     == [s1 EXCEPT !.idx = x.idx, !.nv = @ + 1, !.intents = ints, !.icount = icnt, !.lkS = 0, !.lkW = 0]
                 keep   == SelectSeq(x.unref, LAMBDA h : h \notin Protected(s2))
                 s3     == Witness([s2 EXCEPT !.th[t] = [@ EXCEPT !.unref = keep, !.rolled = rolled]])
             IN  IF keep = <<>> THEN At([s3 EXCEPT !.lkI = 0], t, "unlocked") ELSE At(s3, t, "F:unlink")
@@ -134,7 +146,7 @@ StepT(s, t) ==
                  Ret(s1, t, IF op.op \in {"put", "txfinish"} THEN "ok" ELSE IF op.op = "del" THEN "true" ELSE "count", Len(me.keys))
       [] p \in {"Sw:roll", "Sw:ckpt"} -> At([s1 EXCEPT !.lkS = t, !.wq = @ \ {t}], t, IF p = "Sw:roll" THEN "W:roll" ELSE "W:ckpt")
       [] p \in {"W:roll", "W:ckpt"} ->
-            LET s2 == [s1 EXCEPT !.lp = s.nv - 1, !.lkS = 0]
+            LET s2 == [s1 EXCEPT !.lp = s.nv - 1, !.lkS = 0, !.dsnap = [ver |-> s.nv - 1, idx |-> s.idx]]
                 op == CurOp(s, t) IN
             Ret(s2, t, IF op.op \in {"put", "txfinish", "ckpt"} THEN "ok" ELSE IF op.op = "del" THEN "true" ELSE "count", Len(me.keys))
       [] p = "Sr:read" ->
@@ -163,9 +175,24 @@ StepT(s, t) ==
       [] p = "I:orphan" -> At([s1 EXCEPT !.lkI = t], t, "Sr:read")
       [] p = "F:orphan_unlink" -> NextOrphan([s1 EXCEPT !.cas = @ \ {me.c}, !.lkI = 0], t, me.c \in s.cas)
 
+\* one RECORDED step (from yield point to yield point): the model's step, plus the in-memory apply when the
+\* step was the log append (there is no yield point between the two in the code)
+StepObs(s, t) == LET a == StepT(s, t) IN IF a.th[t].pc = "M:apply" THEN StepT(a, t) ELSE a
+
 (***************************************************************************)
 (* Properties                                                              *)
 (***************************************************************************)
+\* what a recovery would build from the durable side if the process were killed now
+KillIdx(s) == ApplyRecs(IxOf(s.dsnap.idx), s.dlog, s.dsnap.ver).idx
+\* crash x concurrency: at every instant of every interleaving the durable side recovers to the index the handle
+\* shows - or, in the instant between a log append and its in-memory apply, to that index with the one logged
+\* operation applied - and every key of the recovered index has its blob (nothing is unlinked before the record that
+\* releases it is durable, nothing is logged before its blob is in place)
+C03x_KillSafe(s) ==
+    LET r == KillIdx(s) IN
+    /\ \/ r = s.idx
+       \/ \E t \in Threads(s) : s.th[t].pc = "M:apply" /\ r = MapApply(s.idx, LopOf(s, t))
+    /\ \A k \in Keys : r[k] # Absent => r[k] \in s.cas
 AllDone(s) == \A t \in Threads(s) : s.th[t].pc = "done"
 
 \* C04: every key of the index names an existing blob - in every state
